@@ -462,13 +462,17 @@ def run(ctx: core.Ctx) -> None:
     ctx.assumptions += ['reference peer table from every UPDATE on the wire since session start', 'snapshot = neighbors, processes, helper programs started, per-peer neighbor identity/hold/routes, Adj-RIB-Out cache and queues, FSM, connections']
     pool = mp.Pool(min(16, os.cpu_count() or 1))
     try:
-        for job, (viols, outcome, n) in zip(succ, pool.imap(run_success, succ, chunksize=4)):
+        sres = pool.map(run_success, succ, chunksize=4)
+        core.replay_check(ctx, pool, run_success, succ, sres)
+        for job, (viols, outcome, n) in zip(succ, sres):
             ctx.count('executions')
             ctx.count('transitions', 2)
             ctx.add_to_set('outcomes', outcome)
             for sig, what in viols:
                 ctx.violation(sig, f'[old {job[0]} new {job[1]} session {job[2]} api {job[3]} change {job[4]}] {what}', {'kind': 'success', 'job': [list(job[0]), list(job[1]), job[2], job[3], job[4]]})
-        for job, (viols, outcome, n) in zip(fail, pool.imap(run_failure, fail, chunksize=4)):
+        fres = pool.map(run_failure, fail, chunksize=4)
+        core.replay_check(ctx, pool, run_failure, fail, fres)
+        for job, (viols, outcome, n) in zip(fail, fres):
             ctx.count('executions')
             ctx.count('transitions', 2)
             ctx.add_to_set('outcomes', outcome)
